@@ -9,10 +9,33 @@ package cors
 // the internal packages ran; and it must stay below a small constant.
 func zzH_C18_api() {
 	s := zzDrawScenario([]int{zzFOrigin, zzFMethod, zzFHeaders, zzFPNA, zzFSteps})
+	r := s.q.r
+	// sizes beyond the scenarios' byte bounds, where they are cheap to explore:
+	// a method of up to 12 bytes (past the first growth step of a byte buffer),
+	// and an Origin / method of any length between 400 bytes and 1 MiB
+	if zzChoose(2) == 1 {
+		switch s.focus {
+		case zzFMethod:
+			if zzChoose(2) == 1 {
+				v := zzString(12)
+				zzAssume(len(v) > 6)
+				r.Header[zzACRM][0] = v
+			} else {
+				r.Header[zzACRM][0] = zzLong()
+			}
+			zzReach("long-method")
+		case zzFOrigin:
+			zzAssume(len(r.Header[zzOrig]) > 0)
+			r.Header[zzOrig][0] = zzLong()
+			zzReach("long-origin")
+		default:
+			zzAssume(false)
+		}
+	}
 	w := zzNewWriter()
 	h := s.m.Wrap(&zzHandler{})
 	zzAllocStart()
-	h.ServeHTTP(w, s.q.r)
+	h.ServeHTTP(w, r)
 	zzAllocStop(16) // the engine reports a count above the limit, and unequal counts within a branch class
 	zzReach("counted")
 }
